@@ -140,19 +140,16 @@ Definition pr_anns (l : list cann) (k : list byte) : list byte := txt "(" ++ pr_
 Definition erase_ann (a : cann) : Annotation := mkAnnotation (ca_key a) (erase_lit (ca_lit a)).
 Definition erase_anns (l : list cann) : Annotations := map erase_ann l.
 
-(* two optional blank slots are adjacent when an annotation has no separator (its trailing blank and the leading
-   blank of the next annotation) or has one (the separator's blank and the next leading blank): the layout puts
-   the blank in the first of them *)
-Definition sep_has_blank_slot_after (a : cann) : bool := true.
+(* two optional blank slots are adjacent between annotations (the trailing blank or the separator's blank of one and
+   the leading blank of the next): the layout puts the blank in the first of them, so only the first annotation of a
+   list may have a leading blank *)
+Definition wf_ann (a : cann) : bool :=
+  wf_blank (ca_b1 a) && is_annkey (ca_key a) && wf_blank (ca_b2 a) && wf_blank (ca_b3 a) && wf_lit (ca_lit a) &&
+  wf_blank (ca_b4 a) && wf_sep (ca_sep a).
 Fixpoint wf_ann_list (l : list cann) : bool :=
   match l with
   | [] => true
-  | a :: l' =>
-    wf_blank (ca_b1 a) && is_annkey (ca_key a) && wf_blank (ca_b2 a) && wf_blank (ca_b3 a) && wf_lit (ca_lit a) &&
-    wf_blank (ca_b4 a) && wf_sep (ca_sep a) &&
-    match l' with [] => true | a' :: _ => is_nil (ca_b1 a') end &&
-    match ca_sep a with SepNone => true | SepSome _ _ => true end &&
-    wf_ann_list l'
+  | a :: l' => wf_ann a && match l' with [] => true | a' :: _ => is_nil (ca_b1 a') end && wf_ann_list l'
   end.
 Definition wf_anns (l : list cann) : bool := negb (is_nil l) && wf_ann_list l.
 
@@ -261,17 +258,24 @@ with wf_type (t : ctype) : bool :=
   | CType t (Some (bl, anns)) => wf_ty t && wf_blank bl && wf_anns anns
   end.
 
+(* ---------- optional pieces shared by the declarations ---------- *)
+Definition pr_oanns (a : option (list cann)) (k : list byte) : list byte :=
+  match a with Some l => pr_anns l k | None => k end.
+Definition erase_oanns (a : option (list cann)) : Annotations := match a with Some l => erase_anns l | None => [] end.
+Definition wf_oanns (a : option (list cann)) : bool := match a with Some l => wf_anns l | None => true end.
+Definition sep_none (s : csep) : bool := match s with SepNone => true | SepSome _ _ => false end.
+Definition is_none {A} (o : option A) : bool := match o with None => true | Some _ => false end.
+
 (* ---------- typedef:  typedef <blank> T <blank> alias [blank] [annotations] [separator] ---------- *)
 Record ctypedef := mkCTypedef { ctd_b1 : blank; ctd_type : ctype; ctd_b2 : blank; ctd_alias : Ident; ctd_b3 : blank;
                                 ctd_anns : option (list cann); ctd_sep : csep }.
-Definition pr_oanns (a : option (list cann)) (k : list byte) : list byte :=
-  match a with Some l => pr_anns l k | None => k end.
 Definition pr_typedef (c : ctypedef) (k : list byte) : list byte :=
   txt "typedef" ++ pr_blank (ctd_b1 c) (pr_type (ctd_type c) (pr_blank (ctd_b2 c) (ctd_alias c ++ pr_blank (ctd_b3 c)
     (pr_oanns (ctd_anns c) (pr_sep (ctd_sep c) k))))).
 Definition erase_typedef (c : ctypedef) : Typedef :=
-  mkTypedef (erase_type (ctd_type c)) (ctd_alias c) (match ctd_anns c with Some l => erase_anns l | None => [] end).
+  mkTypedef (erase_type (ctd_type c)) (ctd_alias c) (erase_oanns (ctd_anns c)).
 Definition wf_typedef (c : ctypedef) : bool :=
   wf_blank (ctd_b1 c) && negb (is_nil (ctd_b1 c)) && wf_type (ctd_type c) && wf_blank (ctd_b2 c) && negb (is_nil (ctd_b2 c)) &&
-  is_ident (ctd_alias c) && negb (bytes_eq (ctd_alias c) (txt "cpp_type")) && wf_blank (ctd_b3 c) &&
-  match ctd_anns c with Some l => wf_anns l | None => true end && wf_sep (ctd_sep c).
+  is_ident (ctd_alias c) && wf_blank (ctd_b3 c) && wf_oanns (ctd_anns c) && wf_sep (ctd_sep c).
+(* does the text of the declaration end with a word character (so that a following word must be set off)? *)
+Definition typedef_ends_word (c : ctypedef) : bool := is_nil (ctd_b3 c) && is_none (ctd_anns c) && sep_none (ctd_sep c).
